@@ -21,14 +21,21 @@ import (
 
 func runRestoreCase(o *hx.Out, f *hx.Flags, k int, r *prng.R) {
 	mode := []string{"latest", "gc", "all"}[r.Weighted([]int{3, 2, 1})]
-	o.Count("case:restore/" + mode)
-	o.Line("mode "+mode, "ok")
+	lower := []string{"mem", "copy", "bolt"}[r.Weighted([]int{2, 4, 2})]
 	g := newGen(r, o, r.Chance(1, 3))
 	cont := map[string][]byte{}
 	g.changes(cont, r.Range(1, 25))
 	if len(cont) == 0 {
 		cont[string(g.pool[0])] = []byte{0xaa}
 	}
+	restoreRun(o, k, r, mode, lower, cont, g, 3)
+}
+
+// restoreRun restores the trie with contents cont into an empty store over the given persistent
+// layer, flushing to it before a restoration with probability 1/persistP, then goes on with blocks.
+func restoreRun(o *hx.Out, k int, r *prng.R, mode, lower string, cont map[string][]byte, g *gen, persistP int) {
+	o.Count("case:restore/" + mode)
+	o.Count("restore:lower:" + lower)
 	// source trie, everything kept
 	src := storage.NewMemCachedStore(storage.NewMemoryStore())
 	tr := mpt.NewTrie(nil, mpt.ModeAll, src)
@@ -48,10 +55,12 @@ func runRestoreCase(o *hx.Out, f *hx.Flags, k int, r *prng.R) {
 	root := tr.StateRoot()
 	sv := readView(src)
 
-	dst := storage.NewMemCachedStore(storage.NewMemoryStore())
+	ps, _, cleanup := newLower(lower)
+	defer cleanup()
+	dst := storage.NewMemCachedStore(ps)
 	b := mpt.NewBillet(root, trieMode(mode), storage.STTempStorage, dst)
 	var restoreErr string
-	positions := 0
+	positions, persists := 0, 0
 	var rec func(h []byte, path []byte)
 	rec = func(h []byte, path []byte) {
 		if restoreErr != "" {
@@ -67,6 +76,19 @@ func runRestoreCase(o *hx.Out, f *hx.Flags, k int, r *prng.R) {
 		no.DecodeBinary(rd)
 		if rd.Err != nil {
 			panic(rd.Err)
+		}
+		// the sync can be interrupted / flushed to disk between any two restorations
+		if r.Chance(1, persistP) {
+			var err error
+			if r.Bool() {
+				_, err = dst.PersistSync()
+			} else {
+				_, err = dst.Persist()
+			}
+			if err != nil {
+				panic(err)
+			}
+			persists++
 		}
 		obs := hx.Safe(func() string {
 			if err := b.RestoreHashNode(bytes.Clone(path), no.Node); err != nil {
@@ -95,28 +117,41 @@ func runRestoreCase(o *hx.Out, f *hx.Flags, k int, r *prng.R) {
 	}
 	rec(rootKey(root), nil)
 	o.Add("restore:positions", positions)
+	o.Add("restore:persists-between", persists)
+
+	idx := uint32(r.Range(1, 9))
+	m := newTrieMFrom(mode, ps, dst, root)
+	h := newHist(o, k, mode, m)
 	if restoreErr != "" {
-		o.Fail("restore-failed", k, "[restore/%s] %s", mode, restoreErr)
+		h.fail("restore-failed", "%s", restoreErr)
 		return
+	}
+	if r.Bool() {
+		m.Persist()
 	}
 	dv := readView(dst)
 	rcMode := mode != "all"
-	o.Line("restore "+strings.Join(es, ","), "r="+hex.EncodeToString(root[:])+" "+storeObs(rcMode, view{}, dv))
+	h.line(fmt.Sprintf("restore %d %s", idx, strings.Join(es, ",")), "r="+hex.EncodeToString(root[:])+" "+storeObs(rcMode, view{}, dv))
+	h.prev, h.last = dv, dv
+	h.cont = cont
+	h.recs[idx] = &rec0{root: root, cont: cont}
+	h.heights = append(h.heights, idx)
+	h.probes = pickProbes(r, g.pool)
 	o.Seen(fmt.Sprintf("restore/%s:%d:%s", mode, len(cont), root.StringLE()[:8]))
 
 	// oracle: the restored store is exact for the trie
 	w := newWalker(dv, rcMode)
 	if e := w.walk(rootKey(root), nil); e != nil {
-		o.Fail("restore:"+e.key, k, "[restore/%s] node %s: %s", mode, e.hash, e.msg)
+		h.fail("restore:"+e.key, "node %s: %s", e.hash, e.msg)
 		return
 	}
 	if !sameCont(w.cont, cont) {
-		o.Fail("restore:content-mismatch", k, "[restore/%s] restored trie holds %d pairs, source %d", mode, len(w.cont), len(cont))
+		h.fail("restore:content-mismatch", "restored trie holds %d pairs, source %d", len(w.cont), len(cont))
 	}
 	for hs, n := range w.occ {
 		c := w.cells[hs]
 		if rcMode && (!c.active || int(c.num) != n) {
-			o.Fail("restore:count-mismatch", k, "[restore/%s] node %x occurs %d times, stored active=%v num=%d", mode, hs, n, c.active, c.num)
+			h.fail("restore:count-mismatch", "node %x occurs %d times, stored active=%v num=%d", hs, n, c.active, c.num)
 			return
 		}
 		if n > 1 {
@@ -125,17 +160,30 @@ func runRestoreCase(o *hx.Out, f *hx.Flags, k int, r *prng.R) {
 	}
 	for hs := range dv {
 		if _, ok := w.occ[hs]; !ok {
-			o.Fail("restore:garbage-node", k, "[restore/%s] record %x is not part of the restored trie", mode, hs)
+			h.fail("restore:garbage-node", "record %x is not part of the restored trie", hs)
 			return
 		}
 	}
-	// and readable through the API
-	for _, kk := range ks {
-		got, err := mpt.NewTrie(mpt.NewHashNode(root), trieMode(mode), storage.NewMemCachedStore(dst)).Get([]byte(kk))
-		if err != nil || !bytes.Equal(got, cont[kk]) {
-			o.Fail("restore:get-mismatch", k, "[restore/%s] key %x: got %x err %v", mode, kk, got, err)
+	// the node goes on from the restored state: blocks that remove / re-create copies, GC, reads
+	nb := r.Range(2, 6)
+	for i := 0; i < nb && !h.dead; i++ {
+		idx++
+		h.block(idx, g.blockOps(h.cont, false, 5))
+		if h.dead {
 			break
 		}
+		if mode == "gc" && r.Chance(1, 3) {
+			h.gc(idx - uint32(r.Intn(2)))
+		}
+		if r.Chance(1, 3) {
+			m.Persist()
+		}
+		if r.Chance(1, 6) {
+			h.reset()
+		}
+	}
+	if !h.dead {
+		h.checkRetained(h.m.View(), true)
 	}
 	_ = util.Uint256{}
 }
